@@ -805,6 +805,28 @@ class SimWriteFile:
             pass
 
 
+def _maybe_concurrent(rel):
+    """another process changes a file while the simulated one is busy: fires once, right after the n-th read() on a
+    path containing a given text (spec: {"contains": s, "nth": n, "path": abs, "byte": i, "bit": b})"""
+    c = getattr(CS, "concurrent", None)
+    if not c or c.get("done") or c.get("contains", "") not in rel:
+        return
+    c["seen"] = c.get("seen", 0) + 1
+    if c["seen"] < c.get("nth", 1):
+        return
+    c["done"] = True
+    try:
+        with R_open(c["path"], "rb") as f:
+            data = bytearray(f.read())
+        if data:
+            data[c.get("byte", 0) % len(data)] ^= 1 << (c.get("bit", 0) % 8)
+            with R_open(c["path"], "wb") as f:
+                f.write(data)
+            CS.extra["concurrent_fired"] = 1
+    except OSError:
+        pass
+
+
 class SimReadFile:
     """binary reader with simulator-chosen short reads"""
 
@@ -855,6 +877,7 @@ class SimReadFile:
                 CS.extra["short_reads"] = CS.extra.get("short_reads", 0) + 1
         CS.reads[self._rel] = CS.reads.get(self._rel, 0) + len(data)
         CS.clock.io()
+        _maybe_concurrent(self._rel)
         return data
 
     def readinto(self, b):
@@ -1195,6 +1218,7 @@ def _child_run_job(cs, job, cwd, hooks):
 
     lg.verbose_logging = False
     lg.debug_logging = False
+    cs.concurrent = dict(hooks["concurrent"]) if hooks and hooks.get("concurrent") else None
     os.chdir(cwd)
     try:
         if job[0] == "cmd":
